@@ -303,6 +303,9 @@ Proof.
   - apply lok_one. reflexivity.
   - constructor.
   - apply lok_flat. lih H Hwf.
+  - constructor.
+  - constructor.
+  - constructor.
 Qed.
 
 (* ---- groups and environments are properly nested ---- *)
